@@ -220,6 +220,9 @@ struct Run {
     void bad(const std::string& what, const std::string& detail) { if (fired) corrupt(what, detail); else mismatch(what, detail); }
     // element construction/destruction anomalies.  In a history in which an allocation has been refused earlier they
     // are the late symptom of that failure (fault-injecting and fault-free findings are kept apart).
+    // the container's own observables contradict each other (after the model has been re-synchronised from it):
+    // nothing that follows in this history would be meaningful
+    void inconsistent(const std::string& what, const std::string& detail) { bad(what, detail); stop = poisoned = true; }
     void lifetime(const std::string& what, const std::string& detail) {
         ++anomalies;
         if (fired) corrupt(what, detail);
@@ -274,7 +277,7 @@ struct Run {
         } else {
             std::string oc;
             if (!acceptSeq(model, post, S, sh, oc)) corrupt("state", std::string(which) + " is " + show(S) + "; before " + show(model) + ", intended " + show(post));
-            res.count("fault-state:" + oc);
+            if (which[0] == 'A') res.count("fault-state:" + oc + (oc == "mixed" ? ":" + cont + ":" + family : ""));
         }
         model = S;
     }
